@@ -15,9 +15,22 @@
        add_feature_to_collection / add_feature_link_to_links   self.links.add(feature.link), only for a
                                feature that is not yet stored (Feature.__eq__)                        -> proc
        _handle_input_features_recursion + Features.build_feature_collection / merge_options           -> proc
-       _add_filter_feature     identity_matched_filters (deepcopy of each filter, unify_options), then
-                               global_filter.add_filter_to_collection(group, feature.name, match)     -> add_filter_feature
-     mloda/core/filter/global_filter.py   unify_options, add_filter_to_collection                     -> enrich, coll_add
+       _add_filter_feature     identity_matched_filters, then per match: filter_feature.name / uuid rewritten ON THE
+                               MATCH, global_filter.add_filter_to_collection(group, feature.name, match),
+                               add_feature_to_collection(group, match.filter_feature)                 -> add_filter_feature
+     mloda/core/filter/global_filter.py
+       identity_matched_filters  per filter of the Engine's GlobalFilter: _filter = deepcopy(filter); unify_options into
+                               _filter; criteria; domain(_filter, feat.domain, group) -- which ASSIGNS
+                               _filter.filter_feature.domain when the filter feature has none and the feature / group has
+                               one, and raises ValueError (Domain.__eq__ with None) when the filter feature has a domain,
+                               the feature has none and the group's domain differs; compute_framework(_filter, feat) --
+                               which ASSIGNS _filter.filter_feature.compute_frameworks when unset      -> match_one, identity_matched
+       unify_options, criteria, domain, compute_framework, add_filter_to_collection
+                                                                 -> enrich, crit, domain_step, cfw_step, coll_add
+     mloda/core/prepare/identify_feature_group.py  criteria, domain (not feature.domain or group.get_domain() ==
+                               feature.domain), framework; exactly one group must remain              -> resolve
+     mloda/core/abstract_plugins/components/feature_collection.py  build_feature_collection: an input feature without
+                               domain inherits the domain of its parent FEATURE (not of the group)     -> eff_dom
      mloda/core/prepare/execution_plan.py add_single_filters_to_feature_set (iteration over collection.items(),
                                first matching set kept BY REFERENCE, later ones compared with !=)     -> step_filters
 
@@ -28,10 +41,22 @@
    from their content).  api_data is never written by
    planning or running and therefore has no cell (the harness snapshot checks that).
 
+   Domains: a domain is a number (0 = Domain.get_default_domain()); a Feature / filter feature carries `option nat`
+   (None: no domain), a group carries gi_dom.  Several groups may provide the same feature name (in different domains).
+
+   Variants: the planning functions take a `variant` saying (a) whether Engine.__init__ deep-copies the caller's
+   GlobalFilter (as implemented) or only creates new containers around the caller's SingleFilter objects, and (b)
+   whether identity_matched_filters applies domain() to the per-filter copy (as implemented) or to the original filter
+   object before copying it.  `as_implemented` is /repo; the other three variants exist for the theorems of Props/C07.v
+   that say which of the two copies the property rests on.  The Engine's filter objects are a component of the planning
+   state (r_flts): as implemented nothing writes them -- that is a theorem (Proofs/ArgsP.v), not a definition.
+
    Domain of the model (what the generated universes of harness/c07.py contain): feature groups without
    index_columns() and with the default set_feature_name (so Feature.name is never rewritten and no index features are
-   created), input features created by the groups as Feature(name[, link=...]) without own options, filter features
-   without context options and without compute framework / domain, option values that are not Feature objects.
+   created), one compute framework per group, input features created by the groups as Feature(name[, link=...][,
+   domain=...]) without own options, filter features without context options, option values that are not Feature
+   objects.  Not modelled (covered by the structural snapshot of the harness only): SingleFilter.name / uuid,
+   filter_feature.uuid / data_type / link / index.
    Python set / dict iteration orders only permute the order in which entries are added; every comparison below is a
    set comparison, so no order parameter is needed.  Definitions only; proofs in Proofs/ArgsP.v. *)
 From Coq Require Import List Bool Arith ZArith String.
@@ -80,13 +105,27 @@ Definition validate_links (s : list link) : bool :=
         || (Nat.eqb (l_jt i) 2 && (Nat.eqb (l_left i) (l_left j) || Nat.eqb (l_left i) (l_right j))) )) s) s.
 
 (* ---------------------------------------------------------------- objects ---- *)
+Definition onat_eqb (a b : option nat) : bool :=
+  match a, b with None, None => true | Some x, Some y => Nat.eqb x y | _, _ => false end.
+Definition oset_eqb (a b : option (list nat)) : bool :=
+  match a, b with
+  | None, None => true
+  | Some x, Some y => forallb (fun i => existsb (Nat.eqb i) y) x && forallb (fun i => existsb (Nat.eqb i) x) y
+  | _, _ => false
+  end.
 Record oobj := { og : opts; oc : opts }.                                   (* Options: group, context *)
 Record fobj := { f_name : string; f_opt : nat; f_cfw : option (list nat); f_flag : bool;
-                 f_dtype : option nat; f_uuid : nat; f_link : option link }.  (* Feature *)
-Record flt := { ft_name : string; ft_opts : opts; ft_type : string; ft_param : list (string * Z) }.  (* SingleFilter *)
-Definition flt_eqb (a b : flt) : bool :=      (* SingleFilter.__eq__: filter_feature (name, options), type, parameter *)
+                 f_dtype : option nat; f_uuid : nat; f_link : option link;
+                 f_dom : option nat }.                                     (* Feature (f_dom: Feature.domain) *)
+(* SingleFilter: filter_feature.name, filter_feature.options.group, filter_type, parameter, filter_feature.domain,
+   filter_feature.compute_frameworks *)
+Record flt := { ft_name : string; ft_opts : opts; ft_type : string; ft_param : list (string * Z);
+                ft_dom : option nat; ft_cfw : option (list nat) }.
+Definition flt_eqb (a b : flt) : bool :=      (* SingleFilter.__eq__: filter_feature (Feature.__eq__: name, options, domain,
+                                                 compute_frameworks), type, parameter *)
   String.eqb (ft_name a) (ft_name b) && opts_eqb (ft_opts a) (ft_opts b) && String.eqb (ft_type a) (ft_type b)
-  && list_eqb (fun x y => String.eqb (fst x) (fst y) && Z.eqb (snd x) (snd y)) (ft_param a) (ft_param b).
+  && list_eqb (fun x y => String.eqb (fst x) (fst y) && Z.eqb (snd x) (snd y)) (ft_param a) (ft_param b)
+  && onat_eqb (ft_dom a) (ft_dom b) && oset_eqb (ft_cfw a) (ft_cfw b).
 Definition flt_in (x : flt) (s : list flt) : bool := existsb (flt_eqb x) s.
 Definition fset_sub (a b : list flt) : bool := forallb (fun x => flt_in x b) a.
 Definition fset_eqb (a b : list flt) : bool := fset_sub a b && fset_sub b a.          (* set == set *)
@@ -112,11 +151,12 @@ Record world := {
 }.
 
 (* ---------------------------------------------------------------- universe (the enabled plug-ins) ---- *)
+(* an input feature as created by a group's input_features: Feature(name[, link=...][, domain=...]) *)
+Record inp := { i_name : string; i_link : option link; i_dom : option nat }.
 Record ginfo := { gi_id : nat; gi_cfw : list nat; gi_api : bool; gi_dtype : option nat;
-                  gi_inputs : list (string * option link) }.
-Definition universe := list (string * ginfo).          (* feature name -> its group and its input features *)
-Fixpoint ufind (u : universe) (n : string) : option ginfo :=
-  match u with [] => None | (n', g) :: t => if String.eqb n n' then Some g else ufind t n end.
+                  gi_inputs : list inp; gi_dom : nat (* FeatureGroup.get_domain(); 0 = default domain *) }.
+(* one entry per (feature name, group providing it): the group and the feature's input features there *)
+Definition universe := list (string * ginfo).
 Definition api_key := "ApiInputData".
 Definition strict_key := "strict_type_enforcement".
 Definition api_has (n : string) (g c : opts) : bool :=          (* ApiInputData.matches *)
@@ -127,11 +167,28 @@ Definition api_has (n : string) (g c : opts) : bool :=          (* ApiInputData.
             | Some (VCols cs) => existsb (fun kc => existsb (String.eqb n) (snd kc)) cs
             | _ => false end
   end.
-(* IdentifyFeatureGroupClass: criteria (name; api-backed groups need the name among the api columns in the options) *)
-Definition resolve (u : universe) (n : string) (g c : opts) : option ginfo :=
-  match ufind u n with
-  | Some gi => if gi_api gi then (if api_has n g c then Some gi else None) else Some gi
-  | None => None
+Inductive perr := EBadAddr | EAddConflict | ELinks | ENoGroup | ECfw | EDtype | EFuel | ERejected
+                | EMulti      (* "Multiple feature groups found" *)
+                | EDomCmp.    (* ValueError "Cannot compare Domain with <class 'NoneType'>" (Domain.__eq__) *)
+
+(* match_feature_group_criteria of group `gi` for a name with options (g, c): the name is one of the group's; api-backed
+   groups need the name among the api columns in the options *)
+Definition crit_entry (n : string) (g c : opts) (e : string * ginfo) : bool :=
+  String.eqb n (fst e) && (if gi_api (snd e) then api_has n g c else true).
+(* _filter_feature_group_by_domain *)
+Definition dom_ok (dom : option nat) (gi : ginfo) : bool :=
+  match dom with None => true | Some d => Nat.eqb (gi_dom gi) d end.
+Definition pick (l : list ginfo) : perr + ginfo :=
+  match l with [] => inl ENoGroup | [gi] => inr gi | _ => inl EMulti end.
+(* IdentifyFeatureGroupClass: criteria, domain, framework (a feature with a user-set framework keeps the groups
+   supporting it; more than one user-set framework raises for the first group that passed criteria and domain); exactly
+   one group must remain *)
+Definition resolve (u : universe) (n : string) (dom : option nat) (cf : option (list nat)) (g c : opts) : perr + ginfo :=
+  let c1 := map snd (filter (fun e => crit_entry n g c e && dom_ok dom (snd e)) u) in
+  match cf with
+  | None => pick c1
+  | Some [x] => pick (filter (fun gi => existsb (Nat.eqb x) (gi_cfw gi)) c1)
+  | Some _ => match c1 with [] => inl ENoGroup | _ => inl ECfw end
   end.
 
 (* ---------------------------------------------------------------- a call ---- *)
@@ -141,15 +198,16 @@ Record call := {
   c_strict : bool;                (* strict_type_enforcement *)
   c_api : option cols;            (* api_data given: its shape (None, or empty: no ApiInputDataCollection) *)
   c_links : bool;                 (* links = the world's set object (true) or None (false) *)
-  c_filter : bool                 (* global_filter = the world's GlobalFilter (true) or None *)
+  c_filter : bool;                (* global_filter = the world's GlobalFilter (true) or None *)
+  c_hz : nat                      (* NOT an argument: Python set iteration order during this call, as far as it matters --
+                                     how many of the hazardous look-ups (seek, below) pass before one raises; theorems
+                                     quantify over it, the correspondence tries several values *)
 }.
-
-Inductive perr := EBadAddr | EAddConflict | ELinks | ENoGroup | ECfw | EDtype | EFuel | ERejected.
 
 (* a feature as stored in Engine.feature_group_collection: group, name, options (group / context), link, data type,
    child_options (None for requested and filter features, the parent's options for input features) *)
 Record pfeat := { pf_gid : nat; pf_name : string; pf_g : opts; pf_c : opts; pf_link : option link;
-                  pf_dtype : option nat; pf_child : option opts }.
+                  pf_dtype : option nat; pf_child : option opts; pf_dom : option nat }.
 
 Inductive outcome :=
   | Accepted (steps : list (nat * opts * list flt))   (* per feature-group step (group, group options): attached filters *)
@@ -168,16 +226,16 @@ Fixpoint upd {A} (l : list A) (a : nat) (f : A -> A) : list A :=
    preserves sharing): both heaps are duplicated, references inside the copies are shifted. *)
 Definition shiftF (nO : nat) (f : fobj) : fobj :=
   {| f_name := f_name f; f_opt := f_opt f + nO; f_cfw := f_cfw f; f_flag := f_flag f; f_dtype := f_dtype f;
-     f_uuid := f_uuid f; f_link := f_link f |}.
+     f_uuid := f_uuid f; f_link := f_link f; f_dom := f_dom f |}.
 Definition deepcopy_heap (F : list fobj) (O : list oobj) : list fobj * list oobj :=
   (F ++ map (shiftF (List.length O)) F, O ++ O).
 
 Definition set_flag (f : fobj) : fobj :=
   {| f_name := f_name f; f_opt := f_opt f; f_cfw := f_cfw f; f_flag := true; f_dtype := f_dtype f;
-     f_uuid := f_uuid f; f_link := f_link f |}.
+     f_uuid := f_uuid f; f_link := f_link f; f_dom := f_dom f |}.
 Definition set_cfw_dtype (c : option (list nat)) (d : option nat) (f : fobj) : fobj :=
   {| f_name := f_name f; f_opt := f_opt f; f_cfw := c; f_flag := f_flag f; f_dtype := d;
-     f_uuid := f_uuid f; f_link := f_link f |}.
+     f_uuid := f_uuid f; f_link := f_link f; f_dom := f_dom f |}.
 
 (* Options.add: key in group with a different value -> ValueError; key in context -> ValueError; group[key] = value *)
 Definition opt_add (o : oobj) (k : string) (v : val) : option oobj :=
@@ -228,78 +286,201 @@ Fixpoint phase1 (api : option cols) (strict : bool) (h : heap) (l : list nat) : 
   end.
 
 (* ---------------------------------------------------------------- recursion over input features ---- *)
-Definition onat_eqb (a b : option nat) : bool :=
-  match a, b with None, None => true | Some x, Some y => Nat.eqb x y | _, _ => false end.
 Definition oopts_eqb (a b : option opts) : bool :=
   match a, b with None, None => true | Some x, Some y => opts_eqb x y | _, _ => false end.
 (* Feature.__eq__: name, options (group), options.context, domain, compute_frameworks, data_type, child_options.
-   NOT the link, NOT initial_requested_data.  (One group per name and one framework per group in the model's domain.) *)
+   NOT the link, NOT initial_requested_data.  (One framework per group in the model's domain, so the frameworks of two
+   stored features of one group agree.) *)
 Definition pf_eqb (a b : pfeat) : bool :=
   Nat.eqb (pf_gid a) (pf_gid b) && String.eqb (pf_name a) (pf_name b) && opts_eqb (pf_g a) (pf_g b)
-  && opts_eqb (pf_c a) (pf_c b) && onat_eqb (pf_dtype a) (pf_dtype b) && oopts_eqb (pf_child a) (pf_child b).
+  && opts_eqb (pf_c a) (pf_c b) && onat_eqb (pf_dtype a) (pf_dtype b) && oopts_eqb (pf_child a) (pf_child b)
+  && onat_eqb (pf_dom a) (pf_dom b).
 Definition stored_in (p : pfeat) (l : list pfeat) : bool := existsb (pf_eqb p) l.
 
-(* unify_options(feat.options, copy_of_filter.options): keys of the feature (group, then context) missing in the
-   filter feature's options are set in its group *)
+(* ---- variants of the two copies the GlobalFilter passes through ---- *)
+Record variant := {
+  v_engine_deepcopy : bool;   (* Engine.__init__: self.global_filter = deepcopy(global_filter)  (false: new containers around
+                                 the caller's SingleFilter objects, empty collection) *)
+  v_domain_on_copy : bool     (* identity_matched_filters: domain() is applied to the deep copy of the filter (false: to
+                                 the filter object itself, before it is copied) *)
+}.
+Definition as_implemented : variant := {| v_engine_deepcopy := true; v_domain_on_copy := true |}.
+Definition regression : variant := {| v_engine_deepcopy := false; v_domain_on_copy := false |}.
+
+Definition set_ft_opts (x : flt) (o : opts) : flt :=
+  {| ft_name := ft_name x; ft_opts := o; ft_type := ft_type x; ft_param := ft_param x; ft_dom := ft_dom x; ft_cfw := ft_cfw x |}.
+Definition set_ft_dom (x : flt) (d : option nat) : flt :=
+  {| ft_name := ft_name x; ft_opts := ft_opts x; ft_type := ft_type x; ft_param := ft_param x; ft_dom := d; ft_cfw := ft_cfw x |}.
+Definition set_ft_cfw (x : flt) (c : option (list nat)) : flt :=
+  {| ft_name := ft_name x; ft_opts := ft_opts x; ft_type := ft_type x; ft_param := ft_param x; ft_dom := ft_dom x; ft_cfw := c |}.
+
+(* unify_options(feat.options, filter.options): keys of the feature (group, then context) missing in the filter
+   feature's options are set in its group *)
 Definition enrich (x : flt) (g c : opts) : flt :=
-  {| ft_name := ft_name x;
-     ft_opts := fold_left (fun o kv => if has (fst kv) o then o else o ++ [kv]) (g ++ c) (ft_opts x);
-     ft_type := ft_type x; ft_param := ft_param x |}.
+  set_ft_opts x (fold_left (fun o kv => if has (fst kv) o then o else o ++ [kv]) (g ++ c) (ft_opts x)).
 
-(* GlobalFilter.criteria: the feature's group accepts the (enriched) filter feature *)
+(* GlobalFilter.criteria: group `gid` accepts the filter feature (name, options) -- no domain, no framework *)
 Definition crit (u : universe) (gid : nat) (x : flt) : bool :=
-  match resolve u (ft_name x) (ft_opts x) [] with Some gi => Nat.eqb (gi_id gi) gid | None => false end.
+  existsb (fun e => Nat.eqb (gi_id (snd e)) gid && crit_entry (ft_name x) (ft_opts x) [] e) u.
 
-Definition matched (u : universe) (filters : list flt) (gid : nat) (g c : opts) : list flt :=
-  filter (crit u gid) (map (fun x => enrich x g c) filters).
+(* GlobalFilter.domain(filter, feat.domain, group): result and the filter object afterwards *)
+Inductive dres := DYes (x : flt) | DNo | DErr.
+Definition domain_step (gdom : nat) (fdom : option nat) (x : flt) : dres :=
+  let fog := match fdom with Some d => Some d | None => if Nat.eqb gdom 0 then None else Some gdom end in
+  match ft_dom x with
+  | None => match fog with
+            | None => DYes x                               (* no domains given *)
+            | Some d => DYes (set_ft_dom x (Some d))       (* filter.filter_feature.domain = feature_or_group_domain *)
+            end
+  | Some fd => match fdom with
+               | None => if Nat.eqb gdom fd then DYes x else DErr      (* falls through to  Domain == None: raises *)
+               | Some d => if Nat.eqb fd d then DYes x else DNo
+               end
+  end.
+(* GlobalFilter.compute_framework(filter, feat) *)
+Definition cfw_step (fcfw : option (list nat)) (x : flt) : option flt :=
+  match ft_cfw x with
+  | None | Some [] => Some (set_ft_cfw x fcfw)             (* filter_feature.compute_frameworks = feat.compute_frameworks *)
+  | Some (c :: _) => match fcfw with
+                     | Some (d :: _) => if Nat.eqb c d then Some x else None
+                     | _ => None
+                     end
+  end.
 
-(* the planning state the recursion works on: Engine.feature_group_collection (all groups), and -- because the recursion
-   only ever ADDS to Engine.links (self.links.add) and to GlobalFilter.collection (add_filter_to_collection) and never
-   reads them (groups without index_columns) -- the sequences of those add calls, applied to the two objects afterwards *)
-Record rst := { r_stored : list pfeat; r_ladds : list link; r_fadds : list (key * flt) }.
+(* one iteration of the loop of identity_matched_filters for the Engine's filter object x and a feature of group gid
+   (domain gdom) with domain fdom, frameworks fcfw, options (g, c): the filter object afterwards, and the match.
+   deepcopy(x) is x as a value: writes to the copy leave the first component alone. *)
+Definition match_one (vr : variant) (u : universe) (gid gdom : nat) (fdom : option nat) (fcfw : option (list nat))
+                     (g c : opts) (x : flt) : perr + (flt * option flt) :=
+  if v_domain_on_copy vr then
+    let y1 := enrich x g c in                              (* _filter = deepcopy(filter); unify_options into _filter *)
+    if crit u gid y1 then
+      match domain_step gdom fdom y1 with
+      | DErr => inl EDomCmp
+      | DNo => inr (x, None)
+      | DYes y2 => inr (x, cfw_step fcfw y2)
+      end
+    else inr (x, None)
+  else
+    match domain_step gdom fdom x with                     (* variant: domain() on the filter object itself, first *)
+    | DErr => inl EDomCmp
+    | DNo => inr (x, None)
+    | DYes x1 => let y1 := enrich x1 g c in                (* then the deepcopy of the (written) object *)
+                 if crit u gid y1 then inr (x1, cfw_step fcfw y1) else inr (x1, None)
+    end.
+
+Fixpoint identity_matched (vr : variant) (u : universe) (gid gdom : nat) (fdom : option nat) (fcfw : option (list nat))
+                          (g c : opts) (fl : list flt) : perr + (list flt * list flt) :=
+  match fl with
+  | [] => inr ([], [])
+  | x :: t => match match_one vr u gid gdom fdom fcfw g c x with
+              | inl e => inl e
+              | inr (x', m) =>
+                match identity_matched vr u gid gdom fdom fcfw g c t with
+                | inl e => inl e
+                | inr (t', ms) => inr (x' :: t', match m with Some y => y :: ms | None => ms end)
+                end
+              end
+  end.
+
+(* the planning state the recursion works on: Engine.feature_group_collection (all groups); the Engine's filter objects
+   (GlobalFilter.filters); and -- because the recursion only ever ADDS to Engine.links (self.links.add) and to
+   GlobalFilter.collection (add_filter_to_collection) and never reads them (groups without index_columns) -- the
+   sequences of those add calls, applied to the two objects afterwards *)
+Record rst := { r_stored : list pfeat; r_ladds : list link; r_fadds : list (key * flt); r_flts : list flt;
+                r_hz : nat (* remaining hazardous look-ups that pass (c_hz) *) }.
+
+(* add_feature_to_collection for a feature p of which an EQUAL one is already stored: for a requested feature
+   (initial_requested_data) and inside the recursion (child_uuid set) the group's collection -- a set -- is searched with
+   Feature.__eq__ for the stored equal.  Feature.__eq__ compares name, options, context and then the domains, and
+   Domain.__eq__ RAISES when one of the two is None: if the set holds a feature with p's name, options and context of
+   which exactly one has a domain, and the iteration meets it before the equal one, the call ends with ValueError
+   "Cannot compare Domain with <class 'NoneType'>".  Which comes first is set iteration order: parameter r_hz. *)
+Definition dom_clash (p q : pfeat) : bool :=
+  Nat.eqb (pf_gid p) (pf_gid q) && String.eqb (pf_name p) (pf_name q) && opts_eqb (pf_g p) (pf_g q)
+  && opts_eqb (pf_c p) (pf_c q)
+  && match pf_dom p, pf_dom q with None, Some _ | Some _, None => true | _, _ => false end.
+Definition seek (p : pfeat) (st : rst) : perr + rst :=
+  if existsb (dom_clash p) (r_stored st) then
+    match r_hz st with
+    | 0 => inl EDomCmp
+    | S k => inr {| r_stored := r_stored st; r_ladds := r_ladds st; r_fadds := r_fadds st; r_flts := r_flts st; r_hz := k |}
+    end
+  else inr st.
 Definition apply_links (L : list link) (log : list link) : list link := fold_left link_add log L.
 Definition apply_coll (C : fcoll) (log : list (key * flt)) : fcoll :=
   fold_left (fun c kx => coll_add c (fst kx) (snd kx)) log C.
 
-(* _add_filter_feature(group, feature): every matched filter is recorded under (group, feature.name) and its filter
-   feature is stored (add_feature_to_collection: only if no equal feature is stored yet) *)
-Definition add_filter_feature (u : universe) (filters : list flt) (st : rst) (gid : nat) (n : string) (g c : opts) : rst :=
-  fold_left (fun st x =>
-    let ff := {| pf_gid := gid; pf_name := ft_name x; pf_g := ft_opts x; pf_c := []; pf_link := None;
-                 pf_dtype := None; pf_child := None |} in
-    {| r_stored := if stored_in ff (r_stored st) then r_stored st else r_stored st ++ [ff];
-       r_ladds := r_ladds st; r_fadds := r_fadds st ++ [((gid, n), x)] |})
-    (matched u filters gid g c) st.
+(* recording the matches: every matched filter is recorded under (group, feature.name) and its filter feature is stored
+   (add_feature_to_collection(group, match.filter_feature, features.child_uuid): only if no equal feature is stored yet;
+   if one is and we are inside the recursion (inrec: child_uuid set), the stored equal is looked up: seek) *)
+Definition record_one (gid : nat) (n : string) (inrec : bool) (st : rst) (x : flt) : perr + rst :=
+  let ff := {| pf_gid := gid; pf_name := ft_name x; pf_g := ft_opts x; pf_c := []; pf_link := None;
+               pf_dtype := None; pf_child := None; pf_dom := ft_dom x |} in
+  let st1 := {| r_stored := r_stored st; r_ladds := r_ladds st; r_fadds := r_fadds st ++ [((gid, n), x)];
+                r_flts := r_flts st; r_hz := r_hz st |} in
+  if stored_in ff (r_stored st) then (if inrec then seek ff st1 else inr st1)
+  else inr {| r_stored := r_stored st ++ [ff]; r_ladds := r_ladds st; r_fadds := r_fadds st ++ [((gid, n), x)];
+              r_flts := r_flts st; r_hz := r_hz st |}.
+Fixpoint record_matches (gid : nat) (n : string) (inrec : bool) (ms : list flt) (st : rst) : perr + rst :=
+  match ms with
+  | [] => inr st
+  | x :: t => match record_one gid n inrec st x with
+              | inl e => inl e
+              | inr st' => record_matches gid n inrec t st'
+              end
+  end.
+(* _add_filter_feature(group, feature) *)
+Definition add_filter_feature (vr : variant) (u : universe) (st : rst) (gi : ginfo) (n : string) (fdom : option nat)
+                              (fcfw : option (list nat)) (g c : opts) (inrec : bool) : perr + rst :=
+  match identity_matched vr u (gi_id gi) (gi_dom gi) fdom fcfw g c (r_flts st) with
+  | inl e => inl e
+  | inr (fl', ms) =>
+    record_matches (gi_id gi) n inrec ms
+      {| r_stored := r_stored st; r_ladds := r_ladds st; r_fadds := r_fadds st; r_flts := fl'; r_hz := r_hz st |}
+  end.
 
-(* Engine._process_feature on a feature value: resolve the group; add_feature_to_collection -- only a feature that is
-   NOT yet stored (Feature.__eq__ ignores the link!) gets its link added to Engine.links and its input features
-   processed (Feature(name) objects created by the group: group options = the parent's (merge_options), context empty,
-   child_options = the parent's options, data type = the group's rule); then, in any case, _add_filter_feature. *)
-Fixpoint proc (u : universe) (use_filter : bool) (filters : list flt) (fuel : nat) (st : rst)
-              (n : string) (g c : opts) (l : option link) (dt : option nat) (child : option opts) : option rst :=
+(* Features.build_feature_collection: an input feature without own domain inherits the parent FEATURE's domain *)
+Definition eff_dom (il : inp) (parent : option nat) : option nat :=
+  match i_dom il with Some d => Some d | None => parent end.
+(* Engine.set_compute_framework: a user-set single framework is kept, otherwise the group's frameworks *)
+Definition feat_cfw (rcf : option (list nat)) (gi : ginfo) : option (list nat) :=
+  match rcf with Some [x] => Some [x] | _ => Some (gi_cfw gi) end.
+
+(* Engine._process_feature on a feature value (name, domain, user-set frameworks rcf, options, link, own data type dt0):
+   resolve the group; add_feature_to_collection -- only a feature that is NOT yet stored (Feature.__eq__ ignores the
+   link!) gets its link added to Engine.links and its input features processed (Feature(name) objects created by the
+   group: group options = the parent's (merge_options), context empty, child_options = the parent's options, domain =
+   own or the parent feature's, data type = the group's rule); then, in any case, _add_filter_feature.
+   An exception (group resolution of an input feature, Domain comparison) ends the call. *)
+Fixpoint proc (vr : variant) (u : universe) (use_filter : bool) (fuel : nat) (st : rst)
+              (n : string) (dom : option nat) (rcf : option (list nat)) (g c : opts) (l : option link)
+              (dt0 : option nat) (child : option opts) : perr + rst :=
   match fuel with
-  | 0 => None
+  | 0 => inl EFuel
   | S k =>
-    match resolve u n g c with
-    | None => None
-    | Some gi =>
-      let p := {| pf_gid := gi_id gi; pf_name := n; pf_g := g; pf_c := c; pf_link := l; pf_dtype := dt; pf_child := child |} in
+    match resolve u n dom rcf g c with
+    | inl e => inl e
+    | inr gi =>
+      let dt := match dt0 with Some a => Some a | None => gi_dtype gi end in
+      let p := {| pf_gid := gi_id gi; pf_name := n; pf_g := g; pf_c := c; pf_link := l; pf_dtype := dt; pf_child := child;
+                  pf_dom := dom |} in
       let st1 :=
-        if stored_in p (r_stored st) then Some st
+        if stored_in p (r_stored st) then seek p st        (* requested (flag set) or inside the recursion: look-up *)
         else fold_left (fun acc il => match acc with
-                                      | None => None
-                                      | Some s => match ufind u (fst il) with
-                                                  | None => None
-                                                  | Some gi' => proc u use_filter filters k s (fst il) g [] (snd il) (gi_dtype gi') (Some g)
-                                                  end
+                                      | inl e => inl e
+                                      | inr s => proc vr u use_filter k s (i_name il) (eff_dom il dom) None g [] (i_link il)
+                                                      None (Some g)
                                       end)
                        (gi_inputs gi)
-                       (Some {| r_stored := r_stored st ++ [p];
-                                r_ladds := match l with Some x => r_ladds st ++ [x] | None => r_ladds st end;
-                                r_fadds := r_fadds st |}) in
+                       (inr {| r_stored := r_stored st ++ [p];
+                               r_ladds := match l with Some x => r_ladds st ++ [x] | None => r_ladds st end;
+                               r_fadds := r_fadds st; r_flts := r_flts st; r_hz := r_hz st |}) in
       match st1 with
-      | None => None
-      | Some s1 => Some (if use_filter then add_filter_feature u filters s1 (gi_id gi) n g c else s1)
+      | inl e => inl e
+      | inr s1 => if use_filter
+                  then add_filter_feature vr u s1 gi n dom (feat_cfw rcf gi) g c (match child with Some _ => true | None => false end)
+                  else inr s1
       end
     end
   end.
@@ -351,7 +532,7 @@ Definition dtype_check (f : fobj) (gi : ginfo) : option (option nat) :=     (* E
   | None, Some b => Some (Some b)
   end.
 
-Definition phase2_one (u : universe) (fuel : nat) (use_filter : bool) (filters : list flt) (st : pst) (a : nat)
+Definition phase2_one (vr : variant) (u : universe) (fuel : nat) (use_filter : bool) (st : pst) (a : nat)
   : pst * option perr :=
   let F := fst (p_heap st) in let O := snd (p_heap st) in
   match nth_error F a with
@@ -360,9 +541,9 @@ Definition phase2_one (u : universe) (fuel : nat) (use_filter : bool) (filters :
     match nth_error O (f_opt f) with
     | None => (st, Some EBadAddr)
     | Some o =>
-      match resolve u (f_name f) (og o) (oc o) with
-      | None => (st, Some ENoGroup)
-      | Some gi =>
+      match resolve u (f_name f) (f_dom f) (f_cfw f) (og o) (oc o) with
+      | inl e => (st, Some e)
+      | inr gi =>
         match cfw_check f gi with
         | inl e => (st, Some e)
         | inr cf =>
@@ -371,11 +552,11 @@ Definition phase2_one (u : universe) (fuel : nat) (use_filter : bool) (filters :
               ({| p_heap := (upd F a (set_cfw_dtype cf (f_dtype f)), O); p_r := p_r st |}, Some EDtype)
           | Some dt =>
             let h' : heap := (upd F a (set_cfw_dtype cf dt), O) in
-            match proc u use_filter filters fuel (p_r st) (f_name f) (og o) (oc o) (f_link f) dt None with
-            | None => (* an input feature does not resolve (outside the model's domain: the partial effects of the
-                         recursion depend on set iteration order) *)
-                      ({| p_heap := h'; p_r := p_r st |}, Some ENoGroup)
-            | Some r => ({| p_heap := h'; p_r := r |}, None)
+            match proc vr u use_filter fuel (p_r st) (f_name f) (f_dom f) (f_cfw f) (og o) (oc o) (f_link f) dt None with
+            | inl e => (* an exception inside the recursion (an input feature does not resolve, Domain comparison): the
+                          partial effects of the recursion depend on set iteration order and are not kept *)
+                       ({| p_heap := h'; p_r := p_r st |}, Some e)
+            | inr r => ({| p_heap := h'; p_r := r |}, None)
             end
           end
         end
@@ -383,27 +564,30 @@ Definition phase2_one (u : universe) (fuel : nat) (use_filter : bool) (filters :
     end
   end.
 
-Fixpoint phase2 (u : universe) (fuel : nat) (use_filter : bool) (filters : list flt) (st : pst) (l : list nat)
+Fixpoint phase2 (vr : variant) (u : universe) (fuel : nat) (use_filter : bool) (st : pst) (l : list nat)
   : pst * option perr :=
   match l with
   | [] => (st, None)
-  | a :: t => match phase2_one u fuel use_filter filters st a with
+  | a :: t => match phase2_one vr u fuel use_filter st a with
               | (st', Some e) => (st', Some e)
-              | (st', None) => phase2 u fuel use_filter filters st' t
+              | (st', None) => phase2 vr u fuel use_filter st' t
               end
   end.
 
 (* ---------------------------------------------------------------- mlodaAPI.prepare ---- *)
-Definition rst0 : rst := {| r_stored := []; r_ladds := []; r_fadds := [] |}.
+(* the Engine's filter objects at the start: the content of the caller's (a deep copy, or the very objects) *)
+Definition rst0 (fl : list flt) (hz : nat) : rst :=
+  {| r_stored := []; r_ladds := []; r_fadds := []; r_flts := fl; r_hz := hz |}.
 
 (* the traversal of a call: a function of the universe, the filters and the (working) heap only *)
-Definition traverse (u : universe) (fuel : nat) (w : world) (c : call) : heap * (perr + (pst * option perr)) :=
+Definition traverse_v (vr : variant) (u : universe) (fuel : nat) (w : world) (c : call)
+  : heap * (perr + (pst * option perr)) :=
   let nF := List.length (hF w) in
   let h0 : heap := if c_copy c then deepcopy_heap (hF w) (hO w) else (hF w, hO w) in
   let addrs := if c_copy c then map (fun a => a + nF) (c_feats c) else c_feats c in
   match phase1 (c_api c) (c_strict c) h0 addrs with
   | (h1, Some e) => (h1, inl e)
-  | (h1, None) => (h1, inr (phase2 u fuel (c_filter c) (w_filters w) {| p_heap := h1; p_r := rst0 |} addrs))
+  | (h1, None) => (h1, inr (phase2 vr u fuel (c_filter c) {| p_heap := h1; p_r := rst0 (w_filters w) (c_hz c) |} addrs))
   end.
 
 Definition filter_outcome (use_filter : bool) (C : fcoll) (stored : list pfeat) (links : list link) : outcome :=
@@ -414,26 +598,32 @@ Definition filter_outcome (use_filter : bool) (C : fcoll) (stored : list pfeat) 
     end
   else Accepted (map (fun r => (pf_gid r, pf_g r, [])) (step_reps stored [])) links.
 
-Definition plan_call (u : universe) (fuel : nat) (w : world) (c : call) : world * outcome :=
+Definition plan_call_v (vr : variant) (u : universe) (fuel : nat) (w : world) (c : call) : world * outcome :=
   let nF := List.length (hF w) in let nO := List.length (hO w) in
-  let back (h : heap) : world :=
+  (* what the caller holds afterwards; fl: the Engine's filter objects -- the caller's own unless the Engine deep-copied *)
+  let back (h : heap) (fl : list flt) : world :=
     {| hF := firstn nF (fst h); hO := firstn nO (snd h);
-       w_links := w_links w; w_filters := w_filters w; w_coll := w_coll w |} in
-  match traverse u fuel w c with
-  | (h1, inl e) => (back h1, Failed e)
+       w_links := w_links w; w_filters := if v_engine_deepcopy vr then w_filters w else fl; w_coll := w_coll w |} in
+  match traverse_v vr u fuel w c with
+  | (h1, inl e) => (back h1 (w_filters w), Failed e)
   | (h1, inr (st, e)) =>
-    if c_links c && negb (validate_links (w_links w)) then (back h1, Failed ELinks)
+    if c_links c && negb (validate_links (w_links w)) then (back h1 (w_filters w), Failed ELinks)
     else
       (* Engine.links = set(links) (or a new set when links=None) and Engine.global_filter = deepcopy(global_filter):
-         private copies that start from the content of the caller's objects *)
+         private copies that start from the content of the caller's objects (variant without the deepcopy: a new, empty
+         collection) *)
       let L := apply_links (if c_links c then w_links w else []) (r_ladds (p_r st)) in
-      let C := apply_coll (w_coll w) (r_fadds (p_r st)) in
-      (back (p_heap st),
+      let C := apply_coll (if v_engine_deepcopy vr then w_coll w else []) (r_fadds (p_r st)) in
+      (back (p_heap st) (r_flts (p_r st)),
        match e with
        | Some e => Failed e
        | None => filter_outcome (c_filter c) C (p_stored st) L
        end)
   end.
+
+(* /repo *)
+Definition traverse := traverse_v as_implemented.
+Definition plan_call := plan_call_v as_implemented.
 
 (* outcomes are compared as Python compares them: sets of filters, sets of links, steps in any order *)
 Definition steps_sub (a b : list (nat * opts * list flt)) : bool :=
@@ -442,7 +632,7 @@ Definition steps_sub (a b : list (nat * opts * list flt)) : bool :=
 Definition perr_eqb (a b : perr) : bool :=
   match a, b with
   | EBadAddr, EBadAddr | EAddConflict, EAddConflict | ELinks, ELinks | ENoGroup, ENoGroup | ECfw, ECfw
-  | EDtype, EDtype | EFuel, EFuel | ERejected, ERejected => true
+  | EDtype, EDtype | EFuel, EFuel | ERejected, ERejected | EMulti, EMulti | EDomCmp, EDomCmp => true
   | _, _ => false
   end.
 Definition outcome_eqb (a b : outcome) : bool :=
@@ -453,60 +643,81 @@ Definition outcome_eqb (a b : outcome) : bool :=
   end.
 
 (* ---------------------------------------------------------------- what a call adds to the Engine's private copies ---- *)
-Definition call_products (u : universe) (fuel : nat) (w : world) (c : call) : list (key * flt) * list pfeat :=
-  match traverse u fuel w c with
+Definition call_products_v (vr : variant) (u : universe) (fuel : nat) (w : world) (c : call) : list (key * flt) * list pfeat :=
+  match traverse_v vr u fuel w c with
   | (_, inr (st, _)) => (r_fadds (p_r st), p_stored st)
   | (_, inl _) => ([], [])
+  end.
+Definition call_products := call_products_v as_implemented.
+(* the matched filters of a call: every (group, feature name) -> enriched filter copy recorded by _add_filter_feature *)
+Definition call_matched_v (vr : variant) (u : universe) (fuel : nat) (w : world) (c : call) : list (key * flt) :=
+  fst (call_products_v vr u fuel w c).
+Definition call_matched := call_matched_v as_implemented.
+(* the Engine's own filter objects when planning ends *)
+Definition call_engine_filters_v (vr : variant) (u : universe) (fuel : nat) (w : world) (c : call) : list flt :=
+  match traverse_v vr u fuel w c with
+  | (_, inr (st, _)) => r_flts (p_r st)
+  | (_, inl _) => w_filters w
   end.
 Definition touches (stored : list pfeat) (k : key) : bool :=
   existsb (fun p => Nat.eqb (pf_gid p) (fst k) && String.eqb (pf_name p) (snd k)) stored.
 
 (* ---------------------------------------------------------------- correspondence checker ---- *)
-(* observed after each call: the caller's heaps, links set and collection (structural snapshot), and the outcome *)
+(* observed after each call: the caller's heaps, links set, filter objects and collection (structural snapshot), and the
+   outcome *)
 Inductive oobs := OAccepted (steps : list (nat * opts * list flt)) | OFailed (e : perr) | OOther.
 Record cobs := { co_call : call; co_F : list fobj; co_O : list oobj; co_links : list link; co_coll : fcoll; co_out : oobs;
-                co_same : bool  (* observed: same planning outcome as the same call on fresh equal objects *) }.
+                co_same : bool;  (* observed: same planning outcome as the same call on fresh equal objects *)
+                co_filters : list flt  (* the caller's GlobalFilter.filters after the call *) }.
 
 Definition oobj_eqb (a b : oobj) : bool := opts_eqb (og a) (og b) && opts_eqb (oc a) (oc b).
-Definition oset_eqb (a b : option (list nat)) : bool :=
-  match a, b with
-  | None, None => true
-  | Some x, Some y => forallb (fun i => existsb (Nat.eqb i) y) x && forallb (fun i => existsb (Nat.eqb i) x) y
-  | _, _ => false
-  end.
 Definition olink_eqb (a b : option link) : bool :=
   match a, b with None, None => true | Some x, Some y => link_eqb x y | _, _ => false end.
 Definition fobj_eqb (a b : fobj) : bool :=
   String.eqb (f_name a) (f_name b) && Nat.eqb (f_opt a) (f_opt b) && oset_eqb (f_cfw a) (f_cfw b)
   && Bool.eqb (f_flag a) (f_flag b) && onat_eqb (f_dtype a) (f_dtype b) && Nat.eqb (f_uuid a) (f_uuid b)
-  && olink_eqb (f_link a) (f_link b).
+  && olink_eqb (f_link a) (f_link b) && onat_eqb (f_dom a) (f_dom b).
 Definition coll_sub (a b : fcoll) : bool := forallb (fun kv => fset_eqb (snd kv) (coll_get b (fst kv))) a.
 Definition coll_eqb (a b : fcoll) : bool := coll_sub a b && coll_sub b a.
 
+(* exceptions raised inside the recursion over input features / filters: which of several is raised first depends on
+   set iteration order (input_features returns a set, GlobalFilter.filters is a set) *)
+Definition trav_err (e : perr) : bool :=
+  match e with ENoGroup | EMulti | EDomCmp => true | _ => false end.
 Definition out_matches (m : outcome) (o : oobs) : bool :=
   match m, o with
   | Accepted s _, OAccepted s' => steps_sub s s' && steps_sub s' s
-  | Failed e, OFailed e' => perr_eqb e e'
+  | Failed e, OFailed e' => perr_eqb e e' || (trav_err e && trav_err e')
   | Accepted _ _, OOther => true     (* rejected by a planning stage the model does not cover (link resolution) ... *)
   | Failed ERejected, OOther => true (* ... which runs before the execution plan compares the filter sets *)
   | _, _ => false
   end.
 
-(* every call is checked as a transition from the OBSERVED state before it: the caller's heaps, links set and filter
-   collection after the call are the model's (links and collection: unchanged), the planning outcome is the model's,
-   and -- the reuse half of the property -- as long as every earlier call left the features alone (copy_features=True)
-   the observed outcome equals the observed outcome of the same call on fresh equal objects. *)
+(* every call is checked as a transition from the OBSERVED state before it: the caller's heaps, links set, filter objects
+   and filter collection after the call are the model's (links, filters and collection: unchanged), the planning outcome
+   is the model's, and -- the reuse half of the property -- as long as every earlier call left the features alone
+   (copy_features=True) the observed outcome equals the observed outcome of the same call on fresh equal objects. *)
 Definition obs_world (w : world) (b : cobs) : world :=
-  {| hF := co_F b; hO := co_O b; w_links := co_links b; w_filters := w_filters w; w_coll := co_coll b |}.
+  {| hF := co_F b; hO := co_O b; w_links := co_links b; w_filters := co_filters b; w_coll := co_coll b |}.
+
+Definition with_hz (c : call) (k : nat) : call :=
+  {| c_feats := c_feats c; c_copy := c_copy c; c_strict := c_strict c; c_api := c_api c; c_links := c_links c;
+     c_filter := c_filter c; c_hz := k |}.
+(* the observed effect and outcome of one call are the model's for SOME set iteration order: no hazardous look-up raises
+   (100: more than a call of the generated size has), or the first / second / third / fourth one does *)
+Definition chk_one (u : universe) (fuel : nat) (w : world) (b : cobs) : bool :=
+  existsb (fun k =>
+    let (w', m) := plan_call u fuel w (with_hz (co_call b) k) in
+    list_eqb fobj_eqb (hF w') (co_F b) && list_eqb oobj_eqb (hO w') (co_O b)
+    && links_eqb (w_links w') (co_links b) && coll_eqb (w_coll w') (co_coll b)
+    && fset_eqb (w_filters w') (co_filters b)
+    && out_matches m (co_out b)) [100; 0; 1; 2; 3].
 
 Fixpoint chk_calls (u : universe) (fuel : nat) (w : world) (allcopy : bool) (h : list cobs) : bool :=
   match h with
   | [] => true
   | b :: t =>
-    let (w', m) := plan_call u fuel w (co_call b) in
-    list_eqb fobj_eqb (hF w') (co_F b) && list_eqb oobj_eqb (hO w') (co_O b)
-    && links_eqb (w_links w') (co_links b) && coll_eqb (w_coll w') (co_coll b)
-    && out_matches m (co_out b)
+    chk_one u fuel w b
     && (if allcopy then co_same b else true)
     && chk_calls u fuel (obs_world w b) (allcopy && c_copy (co_call b)) t
   end.
